@@ -34,8 +34,11 @@ SCRIPTS = {"latn": [("A", 0x41), ("V", 0x56)], "cyrl": [("a-cy", 0x430), ("be-cy
 GEN = ["kern", "dist", "mark", "mkmk", "curs", "abvm", "blwm"]
 
 
-def gen(rng, unkerned_extra=False):
+def gen(rng, unkerned_extra=False, ambiguous_extra=False):
     tags = rng.sample(list(SCRIPTS), rng.randint(1, 2 if unkerned_extra else 3))
+    if ambiguous_extra:
+        unkerned_extra = True
+        tags = [t for t in tags if t not in ("hebr", "arab")] or ["latn"]
     glyphs, kerning = [], {}
     for t in tags:
         (a, ua), (b, ub) = SCRIPTS[t]
@@ -75,13 +78,18 @@ def gen(rng, unkerned_extra=False):
         # glyphs of ONE MORE script that takes no part in any kerning pair, and kerning between common glyphs (digits): the
         # extra script has nothing of its own to register
         have = {g["name"] for g in glyphs}
-        extra = next(t for t in ("grek", "cyrl", "latn", "hebr") if t not in tags and not ({n for n, _ in SCRIPTS[t]} & have))
+        extra = next(t for t in ((("hebr",) if ambiguous_extra else ()) + ("grek", "cyrl", "latn", "hebr")) if t not in tags and not ({n for n, _ in SCRIPTS[t]} & have))
         for n, u in SCRIPTS[extra]:
             glyphs.append({"name": n, "unicodes": [u], "width": 500, "anchors": [("top", Fr(250), Fr(700))], "contours": []})
         for n, u in (("one", 0x31), ("two", 0x32), ("period", 0x2E)):
             glyphs.append({"name": n, "unicodes": [u], "width": 500, "anchors": [], "contours": []})
         kerning[("one", "two")] = Fr(-15)
         kerning[("two", "period")] = Fr(-25)
+        if ambiguous_extra:
+            # the extra (right-to-left) script IS named by kerning pairs, but only by pairs against European digits, which the
+            # writer sets aside (mixed direction): no lookup holds a rule for it, so it has nothing to register either
+            kerning[("alef-hb", "one")] = Fr(-30)
+            kerning[("two", "bet-hb")] = Fr(-20)
         tags = tags + [extra]
     mode = rng.choice(["none", "dflt", "one", "all", "all+lang"])
     if unkerned_extra:
@@ -428,7 +436,9 @@ def explore(ctx):
     rng = ctx.subrng("reach")
     cases, meta = [], []
     for i in range(ctx.budget(60, 400)):
-        desc = gen(rng, unkerned_extra=(i % 6 == 3))
+        desc = gen(rng, unkerned_extra=(i % 6 == 3), ambiguous_extra=(i % 6 == 5))
+        if i % 6 == 5:
+            ctx.klass("an undeclared right-to-left script kerned against digits only")
         lib = rng.choice(["ufoLib2", "defcon"])
         case = {"font": jsonable({k: (v if k != "kerning" else {"%s|%s" % kk: vv for kk, vv in v.items()}) for k, v in desc.items()}), "lib": lib}
         try:
